@@ -17,11 +17,11 @@ RULE = ("(1) enumerated: parameter grid min runtime 0..4 x min downtime 0..4 x i
         "(T=5 quick, T=5..8 thorough): pattern pinned through the bounds of the on-variables of the stand-alone "
         "problem, MILP feasibility of EAO's own rows by scipy-HiGHS, oracle = runtime/downtime automaton; "
         "EAO-feasible <=> automaton accepts. (2) generated points: parameters (ramp, last dispatch, capacities, heat "
-        "share, conversion factor, exact monotone start/shutdown profiles), an on/off pattern and an output vector "
+        "share, conversion factor, exact monotone start/shutdown profiles, in a third of the CHP profiles the documented heat bounds per profile step for one or both ramps), an on/off pattern and an output vector "
         "built step by step from boundary values {0,min,max,prev,prev+-ramp,prev+-ramp+-eps,profile value}; on/off "
         "and output pinned, EAO-feasible <=> predicate of the statement. (3) end to end: Plant/CHP + markets (+ fuel "
         "market) optimised through the real pipeline: returned solution satisfies automaton and predicate, start flag "
-        "at every off->on transition and nowhere else when a spurious flag costs money, heat <= share x power, fuel "
+        "at every off->on transition and nowhere else when a spurious flag costs money, heat <= share x power, heat inside the heat band of its profile step, fuel "
         "node dispatch = -(v/eff + consumption*dt*on + start_fuel*start), optimum = brute force over all accepted "
         "patterns of an independent LP (T <= 6). Non-trivial: (1) every (parameter set, pattern) pair is distinct; "
         "counted are pairs where a runtime/downtime/initial-state limit decides (pattern rejected, or accepted with a "
@@ -29,6 +29,8 @@ RULE = ("(1) enumerated: parameter grid min runtime 0..4 x min downtime 0..4 x i
         "binding or violated by the candidate. Distinct = distinct spec hash.")
 ASSUMPTIONS = ["durations are drawn at half-step offsets so EAO's ceil() conversion to steps is unambiguous",
                "start/shutdown profiles monotone, exact (upper omitted or equal) or a band [lower, upper], as lists or float arrays; uniform step length; ramp_freq = grid freq",
+               "heat bounds of a profile step are read as in the docstring (bounds of the heat dispatch in that step); in the pinned-point part a candidate "
+               "fixes the virtual output and is expected feasible iff some heat value within the band leaves power >= 0 and heat <= share x power",
                "off before the horizon implies last_dispatch = 0; running before implies min <= last dispatch <= max; profile values within [0, max capacity]",
                "Plant/CHP wacc = 0 (EAO does not discount running and start costs)",
                "scipy-HiGHS milp (presolve off) decides feasibility of EAO's rows; SCIP solves EAO's MIP end to end"]
@@ -212,6 +214,17 @@ def _unit(draw, gv, T, profiles=False, allow_fuel=True):
             meta[key] = n
             meta["start_prof" if which == "start" else "shut_prof"] = \
                 [v * minq if not band else [v * minq, h] for v, h in zip(vals, his)]
+            if kind == "chp" and draw(st.integers(0, 2)) == 0:
+                # documented heat bounds per profile step (one side alone or both): [lower, upper] heat volumes
+                cfm = 1.0 if isinstance(a["conversion_factor_power_heat"], dict) else a["conversion_factor_power_heat"]
+                hh = []
+                for h in his:
+                    up_h = draw(st.sampled_from([0.25, 0.5, 1.0])) * h / cfm
+                    lo_h = draw(st.sampled_from([0.0, 0.0, 0.5, 1.0])) * up_h
+                    hh.append([lo_h, up_h])
+                a["%s_ramp_lower_bounds_heat" % which] = [x[0] / dt0 for x in hh]
+                a["%s_ramp_upper_bounds_heat" % which] = [x[1] / dt0 for x in hh]
+                meta["start_prof_heat" if which == "start" else "shut_prof_heat"] = hh
     if meta["SRT"] or meta["SDT"]:
         a["ramp_freq"] = g["freq"]      # profiles are given per grid step
         if draw(st.booleans()):
@@ -302,7 +315,8 @@ def unit_params(a, T):
     mx = np.array(m.get("max_series") or [m["maxq"]] * T, float)
     p = {"min": np.full(T, m["minq"]), "max": mx, "ramp": m["rampq"], "last": m["lastq"], "was_on": m["tar"] > 0,
          "tar": m["tar"], "SRT": m["SRT"], "SDT": m["SDT"], "start_prof": m.get("start_prof", []),
-         "shut_prof": m.get("shut_prof", [])}
+         "shut_prof": m.get("shut_prof", []), "start_prof_heat": m.get("start_prof_heat"),
+         "shut_prof_heat": m.get("shut_prof_heat")}
     return p
 
 
@@ -353,7 +367,9 @@ def check_e2e(spec, out):
     m = a["_uc"]
     dtv = tl.dt(g)
     out.label("e2e", "unit:" + a["type"], "fuel" if "nf" in a["nodes"] else None)
-    r = obs.Run(spec)
+    r = eao_call(obs.Run, spec)
+    if is_err(r):
+        return out.fail("construction of a valid %s raised %s" % (a["type"], r.short()))
     if is_err(r.op):
         return out.fail("set-up of a valid %s raised %s" % (a["type"], r.op.short()))
     res = r.optimize()
@@ -448,7 +464,10 @@ def check_point(spec, out):
     m = a["_uc"]
     pat = list(spec["pattern"])
     out.label("point", "unit:" + a["type"], "profiles" if (m["SRT"] or m["SDT"]) else "no_profiles")
-    assets, _ = build.build_assets(spec)
+    built = eao_call(build.build_assets, spec)
+    if is_err(built):
+        return out.fail("construction of a valid %s raised %s" % (a["type"], built.short()))
+    assets, _ = built
     op = eao_call(assets[0].setup_optim_problem, build.build_prices(spec), build.build_grid(g))
     if is_err(op):
         return out.fail("set-up of a valid %s raised %s" % (a["type"], op.short()))
@@ -508,6 +527,25 @@ def check_point(spec, out):
     why = uc.accepts(pat, mr_eff(m), m["MD"], m["tar"], m["tao"]) if vs["on"] is not None else None
     amb = []
     msgs = uc.point_violations(p, pat, v, tol=1e-9, ambiguous=amb)
+    cf = series_of(a, "conversion_factor_power_heat", T, 1.0) if a["type"] == "chp" else None
+    if p.get("start_prof_heat") or p.get("shut_prof_heat"):
+        # the candidate fixes the virtual output only: a heat value inside the documented heat band of the
+        # profile step must exist with power = v - cf x heat >= 0 and heat <= share x power
+        out.label("heat_profile")
+        share = series_of(a, "max_share_heat", T, None)
+        for t in range(T):
+            r = role[t]
+            if not pat[t] or r is None:
+                continue
+            hp = p.get("start_prof_heat" if r[0] == "start" else "shut_prof_heat")
+            if not hp:
+                continue
+            lo_h, up_h = hp[r[1]]
+            hmax = min(up_h, v[t] / cf[t])
+            if share is not None:
+                hmax = min(hmax, share[t] * v[t] / (1 + share[t] * cf[t]))
+            if lo_h > hmax + 1e-9:
+                msgs.append("step %d: heat band [%g,%g] of the %s profile cannot be met with virtual output %g" % (t, lo_h, up_h, r[0], v[t]))
     if amb and not msgs and why is None:
         return out.drop("ramp_into_shutdown_profile_unspecified")
     expect = (why is None) and not msgs
@@ -515,7 +553,6 @@ def check_point(spec, out):
     if vs["on"] is not None:
         raw.l[vs["on"]] = np.maximum(raw.l[vs["on"]], pat)
         raw.u[vs["on"]] = np.minimum(raw.u[vs["on"]], pat)
-    cf = series_of(a, "conversion_factor_power_heat", T, 1.0) if a["type"] == "chp" else None
     rows = sp.lil_matrix((T, raw.n))
     for t in range(T):
         rows[t, vs["pw"][t]] = 1.0
